@@ -160,7 +160,39 @@ pub fn build(cases: &[ArtCase], tag: &str, slot: usize, has_extra: bool) -> Buil
             }
             break;
         }
-        let (f, o) = attribute(&stderr, cases.len());
+        let (mut f, o) = attribute(&stderr, cases.len());
+        if f.is_empty() && !o.is_empty() {
+            // rustc gave no span inside a case file (e.g. E0275 "overflow evaluating the
+            // requirement"): find the culprits by building subsets of the remaining cases
+            let active: Vec<usize> = (0..cases.len()).filter(|i| !failed.contains_key(i)).collect();
+            let mut probes = 0usize;
+            let mut culprits: Vec<usize> = Vec::new();
+            let mut stack: Vec<Vec<usize>> = vec![active];
+            while let Some(subset) = stack.pop() {
+                if subset.is_empty() || probes >= 48 {
+                    continue;
+                }
+                probes += 1;
+                let stub_now: Vec<usize> = (0..cases.len()).filter(|i| !subset.contains(i)).collect();
+                if write_crate(&dir, cases, &stub_now, has_extra).is_err() {
+                    break;
+                }
+                let (ok, _) = cargo_build(&dir, slot);
+                if ok {
+                    continue;
+                }
+                if subset.len() == 1 {
+                    culprits.push(subset[0]);
+                } else {
+                    let (l, r) = subset.split_at(subset.len() / 2);
+                    stack.push(l.to_vec());
+                    stack.push(r.to_vec());
+                }
+            }
+            for c in culprits {
+                f.entry(c).or_default().extend(o.iter().cloned());
+            }
+        }
         if f.is_empty() {
             other_errors.extend(o);
             other_errors.push(stderr.lines().rev().take(12).collect::<Vec<_>>().join(" | "));
@@ -169,6 +201,11 @@ pub fn build(cases: &[ArtCase], tag: &str, slot: usize, has_extra: bool) -> Buil
         for (k, v) in f {
             failed.entry(k).or_default().extend(v);
         }
+    }
+    if exe.is_none() && std::env::var("VERIF_KEEP_SCRATCH").is_ok() {
+        // development aid: keep a copy of a crate that did not build
+        let keep = dir.with_file_name(format!("{}-failed", dir.file_name().and_then(|s| s.to_str()).unwrap_or("art")));
+        let _ = std::process::Command::new("cp").arg("-r").arg(&dir).arg(&keep).output();
     }
     Built { dir, exe, failed, other_errors, build_secs: t0.elapsed().as_secs_f64() }
 }
@@ -206,6 +243,9 @@ pub fn run(b: &Built, queries: &[(&str, usize, u32, Vec<u8>)]) -> Result<Vec<Str
 }
 
 pub fn cleanup(b: &Built) {
+    if std::env::var("VERIF_KEEP_SCRATCH").is_ok() {
+        return; // development aid
+    }
     let _ = std::fs::remove_dir_all(&b.dir);
 }
 
